@@ -183,7 +183,7 @@ PROPS["C12"] = dict(
     claim="In every instantiated SIMD evaluator path with a linear index (unary, same-shape binary, full reduction; x86 AVX and SSE, float and double): each packed load/store at &p[i] is reachable only through the true edge of (i + lanes) <= size with lanes = register bits / element bits and size the element count, each scalar tail store only through i < size; reduction accumulators are seeded from the op's identity and all identity sources of one instantiation agree; the index functions of the axis-reduction path compare positions with their raw axis parameter, and every call that reaches them passes a visibly normalised axis (R-AXISNORM.caller). Enumerator-driven paths (broadcast, outer, axis reductions), bit-identity of results and SIMDe/vector-extension back-ends are not decided.",
     note=E2_NOTE + " Dominance is computed on clang's CFG of the instantiated evaluator members (if-constexpr resolved).",
     technique="static: CFG dominance rule over instantiated evaluator code (custom libTooling extractor), sibling agreement of identity sources",
-    e2=[dict(rule="R-SIMD"), dict(rule="R-AXISNORM.simd")],
+    e2=[dict(rule="R-SIMD"), dict(rule="R-AXISNORM.simd"), dict(rule="R-SIMDSIB")],
     rule="E2: one instance per packed access / scalar tail store / accumulator seed in each instantiated evaluator member; distinct by (instantiation, source line)",
     explanation="Never reading or writing outside the buffers is, for the linear paths, exactly the loop-guard dominance property; seeding with identity is necessary for reductions other than add.",
     not_decided="offsets computed by simd/index/ufunc.hpp enumerators (non-linear in run-time shapes), matmul tiles, element values",
